@@ -103,6 +103,11 @@ fn forward(acc: &mut Acc, tier: Tier) -> serde_json::Value {
         for i in 0..labels.len() {
             cases.push((di, vec![i]));
         }
+        // every optional top-level member present at once (cross-member interference: two members bound to one name)
+        let all_present: Vec<usize> = labels.iter().enumerate().filter(|(_, l)| l.ends_with("=Some(base)") && l.matches('.').count() == 1).map(|(i, _)| i).collect();
+        if all_present.len() > 2 {
+            cases.push((di, all_present));
+        }
         if tier == Tier::Thorough {
             for i in 0..labels.len() {
                 for j in i + 1..labels.len() {
